@@ -33,7 +33,7 @@ def gen_irset(rng, special: Optional[bool] = None, toggle: Optional[bool] = None
         stems = [code + str(t) for t in range(lo, hi + 1)] if m in (4, 5) else [code]
         for st in stems:
             # the bare stem is the fallback the lookup reaches after dropping swing and fan
-            if rng.random() < 0.85:
+            if rng.random() < 0.85 or not fans:
                 keys.append(st)
             for f in fans:
                 keys.append("%s_f%d" % (st, f))
